@@ -212,6 +212,11 @@ impl Run {
     }
     let dir = format!("{}/replays/{}", root(), self.prop);
     let mut shown = 0;
+    // triage aid: all keys with occurrence counts and one description each
+    if let Ok(path) = std::env::var("VERIF_KEYS_OUT") {
+      let text: String = new_violations.iter().map(|(v, n)| format!("{}\t{}\t{}\n", n, v.key, v.what)).collect();
+      let _ = std::fs::write(&path, text);
+    }
     for (v, n) in &new_violations {
       if shown >= 200 {
         shown += 1;
@@ -222,7 +227,7 @@ impl Run {
       let path = format!("{}/{:016x}.json", dir, digest);
       let doc = json!({"property": self.prop, "key": v.key, "what": v.what, "occurrences": n, "case": v.replay});
       let _ = std::fs::write(&path, serde_json::to_string_pretty(&doc).unwrap());
-      let limit = if std::env::var("VERIF_TRIAGE").is_ok() { 200 } else { 40 };
+      let limit = std::env::var("VERIF_TRIAGE").ok().map(|v| v.parse::<usize>().unwrap_or(200).max(200)).unwrap_or(40);
       if shown < limit {
         let _ = writeln!(out, "VIOLATION property={} replay={} key={} occurrences={} {}", self.prop, path, v.key, n, v.what);
       }
